@@ -309,6 +309,69 @@ def _append_loops(fn):
     return fn
 
 
+def _unroll_table_loops(fn):
+    """N20: a table-driven loop `for a, b in ((x1, y1), (x2, y2)): BODY` over literal rows of plain values is the sequence
+    BODY[a:=x1, b:=y1]; BODY[a:=x2, b:=y2] - when the body neither breaks/continues nor rebinds the loop variables or what the rows name,
+    no closure captures the loop variables, and they are not used outside the loop."""
+    def blocks(node):
+        for f in ("body", "orelse", "finalbody"):
+            v = getattr(node, f, None)
+            if isinstance(v, list) and v and isinstance(v[0], ast.stmt):
+                yield v
+        for h in getattr(node, "handlers", []) or []:
+            yield h.body
+
+    def plain(e):
+        return isinstance(e, (ast.Name, ast.Constant)) or (isinstance(e, ast.Attribute) and plain(e.value))
+
+    def own_jumps(stmts):
+        for st in stmts:
+            if isinstance(st, (ast.Break, ast.Continue)):
+                return True
+            if isinstance(st, (ast.For, ast.While, ast.FunctionDef, ast.ClassDef)):
+                if isinstance(st, (ast.For, ast.While)) and own_jumps(st.orelse):
+                    return True
+                continue
+            for blk in blocks(st):
+                if own_jumps(blk):
+                    return True
+        return False
+    for node in list(ast.walk(fn)):
+        if isinstance(node, ast.ClassDef) or (isinstance(node, ast.FunctionDef) and node is not fn):
+            continue
+        for blk in blocks(node):
+            i = 0
+            while i < len(blk):
+                lp = blk[i]
+                i += 1
+                if not (isinstance(lp, ast.For) and not lp.orelse and isinstance(lp.target, ast.Tuple) and all(isinstance(t, ast.Name) for t in lp.target.elts)
+                        and isinstance(lp.iter, (ast.Tuple, ast.List)) and 1 <= len(lp.iter.elts) <= 4):
+                    continue
+                tv = [t.id for t in lp.target.elts]
+                rows = lp.iter.elts
+                if not all(isinstance(r, (ast.Tuple, ast.List)) and len(r.elts) == len(tv) and all(plain(e) for e in r.elts) for r in rows) or len(set(tv)) != len(tv):
+                    continue
+                if own_jumps(lp.body):
+                    continue
+                inside = {id(x) for x in ast.walk(lp)}
+                row_names = {x.id for r in rows for x in ast.walk(r) if isinstance(x, ast.Name)}
+                stored = {x.id for b in lp.body for x in ast.walk(b) if isinstance(x, ast.Name) and isinstance(x.ctx, (ast.Store, ast.Del))}
+                if stored & (set(tv) | row_names):
+                    continue
+                if any(isinstance(x, (ast.FunctionDef, ast.Lambda, ast.Global, ast.Nonlocal, ast.Yield, ast.YieldFrom, ast.GeneratorExp)) for b in lp.body for x in ast.walk(b)):
+                    continue
+                if any(isinstance(x, ast.Name) and x.id in tv and id(x) not in inside for x in ast.walk(fn)):
+                    continue
+                out = []
+                for r in rows:
+                    env = dict(zip(tv, r.elts))
+                    for b in lp.body:
+                        out.append(_Rename(dict(env)).visit(copy.deepcopy(b)))
+                blk[i - 1:i] = out
+                i += len(out) - 1
+    return fn
+
+
 def _records_in_containers(fn, recs, parents):
     """N15b: instances of an artefact NamedTuple that live in a local list (`cache = [K(None, None)] * n; cache[i] = K(f, s); cache[i].frame`)
     become plain tuples: `K(a, b)` -> `(a, b)`, `<K-typed>.field` -> `<K-typed>[index]`. A NamedTuple is a tuple, so indexing, slicing,
@@ -1533,6 +1596,7 @@ def normalize_function(model, rel, fn, owner_cls=None):
             il.run(n, dict(sib))
             inl.inlined |= il.inlined
     _append_loops(new)
+    _unroll_table_loops(new)
     _scalarise_records(model, rel, new)
     if owner_cls is not None:
         # N18: inside a method, `OwnClass.attr` names the same class object as `__class__.attr` (the rules are written with the latter)
